@@ -34,6 +34,10 @@ CASES = [
  ("C11", "random.py", "        if query is None or query.user_id is None:", "        if not query or not query.user_id:", "break"),
  ("C18", "pipeline/_impl.py", "        elif options.rng is None or isinstance(options.rng, (Generator, BitGenerator)):", "        elif not options.rng or isinstance(options.rng, (Generator, BitGenerator)):", "break"),
  ("C18", "pipeline/_impl.py", "c_opts = options if seed is None else replace(options, rng=seed.spawn(1)[0])", "c_opts = options if not seed else replace(options, rng=seed.spawn(1)[0])", "break"),
+ ("C18", "basic/popularity.py", "        if hasattr(self, \"item_scores_\") and not options.retrain:\n            return\n\n        _log.info(\"counting item popularity\")", "        if hasattr(self, \"item_scores_\") or not options.retrain:\n            return\n\n        _log.info(\"counting item popularity\")", "break"),
+ ("C18", "knn/item.py", "        if hasattr(self, \"items_\") and not options.retrain:", "        if not options.retrain and hasattr(self, \"items_\"):", "keep"),
+ ("C18", "basic/bias.py", "        if hasattr(self, \"model_\") and not options.retrain:", "        if hasattr(self, \"model_\"):", "break"),
+ ("C18", "training.py", "        self.trained_epochs = 0\n", "", "break"),
  ("C19", "stochastic/_ranker.py", "        if n is None or n < 0:\n            n = self.config.n or -1", "        if n is None or n < 0 or n > N:\n            n = self.config.n or -1", "break"),
  ("C19", "basic/random.py", "        if n < 0:\n            n = len(items)\n        else:\n            n = min(n, len(items))", "        if n <= 0:\n            n = len(items)\n        else:\n            n = min(n, len(items))", "break"),
  ("C19", "basic/random.py", "        if n < 0 or n > N:\n            n = N", "        if n > N or n < 0:\n            n = N", "keep"),
